@@ -147,6 +147,26 @@ Section Guaranteed.
   Qed.
 End Guaranteed.
 
+(* the same for the concrete Record under float_rt *)
+Theorem record_concurrent_small (F : Type) (finite : F -> Prop) (print_f64 : F -> bytes) (parse_f64 : bytes -> option F) :
+  float_rt F finite print_f64 parse_f64 ->
+  forall cap file old a b fa fb m,
+  0 < cap -> terminated file -> read (record F) (de_record F finite print_f64 parse_f64) file = Some old ->
+  Forall (good F finite print_f64 parse_f64) a -> Forall (good F finite print_f64 parse_f64) b ->
+  concat fa = write (record F) (ser_record F finite print_f64 parse_f64) a ->
+  concat fb = write (record F) (ser_record F finite print_f64 parse_f64) b ->
+  length (write (record F) (ser_record F finite print_f64 parse_f64) a) <= cap ->
+  length (write (record F) (ser_record F finite print_f64 parse_f64) b) <= cap ->
+  Interleave (bufwriter cap fa) (bufwriter cap fb) m ->
+  read (record F) (de_record F finite print_f64 parse_f64) (concurrent_file file m) = Some (old ++ a ++ b) \/
+  read (record F) (de_record F finite print_f64 parse_f64) (concurrent_file file m) = Some (old ++ b ++ a).
+Proof.
+  intros Hf cap file old a b fa fb m.
+  apply (concurrent_small_batches (record F) (ser_record F finite print_f64 parse_f64) (de_record F finite print_f64 parse_f64)
+           (good F finite print_f64 parse_f64));
+    intros r Hr; apply (record_value_roundtrip F finite print_f64 parse_f64 Hf r Hr).
+Qed.
+
 (* ---------- 4. above the capacity: refuted ---------- *)
 Notation tser := (ser_record bytes txt_finite (fun t => t) (fun t => Some t)).
 Notation tde := (de_record bytes txt_finite (fun t => t) (fun t => Some t)).
@@ -180,11 +200,30 @@ Theorem concurrent_large_batch_refuted :
   read (record bytes) tde (w_old ++ write (record bytes) tser w_a ++ write (record bytes) tser w_b) = Some ([ex_cfg] ++ w_a ++ w_b).
 Proof.
   destruct ex_good as [Gl Gc]. destruct w_chunks as [Ca Cb].
-  split; [unfold w_a; repeat constructor; exact Gl|].
-  split; [repeat constructor; exact Gc|].
+  split; [apply Forall_forall; intros r Hr; apply repeat_spec in Hr; subst r; exact Gl|].
+  split; [constructor; [exact Gc|constructor]|].
   split; [vm_compute; reflexivity|]. split; [vm_compute; reflexivity|].
   split; [apply write_terminated|]. split; [vm_compute; reflexivity|].
-  split; [vm_compute; lia|].
-  split; [rewrite Ca, Cb; unfold w_m; repeat constructor|].
+  split; [apply Nat.ltb_lt; vm_compute; reflexivity|].
+  split; [rewrite Ca, Cb; unfold w_m; apply IL_left, IL_right, IL_left, IL_nil|].
   split; vm_compute; reflexivity.
+Qed.
+
+(* non-vacuity of concurrent_small_batches / record_concurrent_small: one lint record against one configuration update,
+   each handed over in two fragments, B's write(2) first *)
+Example concurrent_small_example :
+  let fa := [firstn 100 (tser ex_lint); skipn 100 (tser ex_lint) ++ [10%N]] in
+  let fb := [firstn 10 (tser ex_cfg); skipn 10 (tser ex_cfg) ++ [10%N]] in
+  concat fa = write (record bytes) tser [ex_lint] /\ concat fb = write (record bytes) tser [ex_cfg] /\
+  length (write (record bytes) tser [ex_lint]) <= bufwriter_capacity /\
+  length (write (record bytes) tser [ex_cfg]) <= bufwriter_capacity /\
+  bufwriter bufwriter_capacity fa = [write (record bytes) tser [ex_lint]] /\
+  Interleave (bufwriter bufwriter_capacity fa) (bufwriter bufwriter_capacity fb)
+             (interleave_by [false] (bufwriter bufwriter_capacity fa) (bufwriter bufwriter_capacity fb)) /\
+  read (record bytes) tde (concurrent_file w_old (interleave_by [false] (bufwriter bufwriter_capacity fa) (bufwriter bufwriter_capacity fb)))
+    = Some ([ex_cfg] ++ [ex_cfg] ++ [ex_lint]).
+Proof.
+  cbv zeta. split; [vm_compute; reflexivity|]. split; [vm_compute; reflexivity|].
+  split; [apply Nat.leb_le; vm_compute; reflexivity|]. split; [apply Nat.leb_le; vm_compute; reflexivity|].
+  split; [vm_compute; reflexivity|]. split; [apply interleave_by_ok|]. vm_compute. reflexivity.
 Qed.
